@@ -144,13 +144,20 @@ def main():
         n = 60 if run.quick() else 700
         for _ in range(n):
             a, b = rng.choice(pool), rng.choice(pool)
-            o = rng.choice(ops + cmps + ['neg', 'not', 'truth', 'and', 'cond'])
+            o = rng.choice(ops + cmps + ['neg', 'not', 'truth', 'and', 'cond'] + ['!' + c for c in cmps] + ['if!' + c for c in cmps[2:]])
             ocases.append((k, t, o, a, b)); k += 1
+        # the negation of every comparison with an unordered operand (C11 7.12.14: a relational operator on NaN is 0, so its negation is 1)
+        for c_ in cmps:
+            for (a, b) in (('(%s)(zero / zero)' % t, '1.0' + sfx), ('1.0' + sfx, '(%s)(zero / zero)' % t)):
+                ocases.append((k, t, '!' + c_, a, b)); k += 1
+                ocases.append((k, t, 'if!' + c_, a, b)); k += 1
     text = HDR + 'int main(void) {\n'
     for (i, t, o, a, b) in ocases:
         pre = '  { volatile %s a = %s, b = %s; ' % (t, a, b)
         if o in ops: text += pre + '%s r = a %s b; dump(%d, &r, %d); }\n' % (t, o, i, size_of(t))
         elif o in cmps: text += pre + 'int r = a %s b; dump(%d, &r, 4); }\n' % (o, i)
+        elif o.startswith('if!'): text += pre + 'int r = 0; if (!(a %s b)) r = 1; while (!(b %s a)) { r += 2; break; } r += 4 * (!(a %s b) ? 1 : 0); dump(%d, &r, 4); }\n' % (o[3:], o[3:], o[3:], i)
+        elif o.startswith('!'): text += pre + 'int r = !(a %s b); dump(%d, &r, 4); }\n' % (o[1:], i)
         elif o == 'neg': text += pre + '%s r = -a; dump(%d, &r, %d); }\n' % (t, i, size_of(t))
         elif o == 'not': text += pre + 'int r = !a; dump(%d, &r, 4); }\n' % i
         elif o == 'truth': text += pre + 'int r = 0; if (a) r = 1; while (b) { r += 2; break; } dump(%d, &r, 4); }\n' % i
